@@ -100,6 +100,15 @@ theorem to_map_spec (zero : α) (m : Mat α) (e : (String × String) × Res α) 
   · rintro ⟨a, ha, b, hb, rfl⟩; exact ⟨ha, hb, rfl⟩
   · rintro ⟨ha, hb, he⟩; exact ⟨e.1.1, ha, e.1.2, hb, by rw [← he]⟩
 
+/-- with repeated taxon labels the list holds several entries under one key; they all carry the same value (the one `get`
+    returns for the labels), so collecting the entries into a hash map yields the same map in whatever order they are
+    inserted — the pair-keyed map is a function of the labelled matrix -/
+theorem to_map_functional (zero : α) (m : Mat α) (e e' : (String × String) × Res α)
+    (h : e ∈ toMap zero m) (h' : e' ∈ toMap zero m) (hk : e.1 = e'.1) : e.2 = e'.2 := by
+  have h1 := ((to_map_spec zero m e).1 h).2.2
+  have h2 := ((to_map_spec zero m e').1 h').2.2
+  rw [h1, h2, hk]
+
 /-- minimum / maximum search returns an entry of the indexed iteration (hence a value `get` returns for its pair) -/
 theorem extremum_spec (lt : α → α → Bool) (m : Mat α) (r : (Nat × Nat) × α) (h : extremum lt m = some r) : r ∈ indexedIter m := by
   unfold extremum at h
